@@ -9,11 +9,12 @@ import numpy as np
 import bct
 from bctmc import smallscope as ss
 from bctmc import oracles as orc
+from bctmc import named
 from bctmc.runner import guarded
 from bctmc.tally import Tally
 
 PROPERTY = 'C12'
-RULE = ('Floyd: all 3-node digraphs / 4-node graphs over lengths {1,2,3}, all binary 4-node digraphs, dyadic weights '
+RULE = ('Floyd: the structured 7-10 node family of bctmc/named.py (binary, lengths {1,2},{1,2,3}, near-tie) and all 3-node digraphs / 4-node graphs over lengths {1,2,3}, all binary 4-node digraphs, dyadic weights '
         '{1,1/2,1/4} with inv and log, the exact near-tie alphabets {1,2,2+2^-20} and {1,2^20,2^20+1}, and the float near-tie alphabets {0.1,0.2,0.3} / {0.2,0.4,0.6} (0.1+0.2 != 0.3 in '
         'binary floating point), every ordered (s,t) (thorough: lengths {1,2} on all 4-node digraphs and 5-node graphs); '
         'navigation: binary L on 4 nodes x all symmetric D over {1,2,3}, L over {0,1,2} x D over {1,2}, max_hops in '
@@ -60,6 +61,9 @@ def plan(ctx):
         tot = ss.dir_count(n, alpha) if directed else ss.und_count(n, alpha)
         for (a, b) in ss.ranges(tot, max(1, min(800, tot // 100))):
             units.append(('floyd', name, a, b))
+    for tag in ('bin_und', 'bin_dir', 'len_und', 'len_dir', 'neartie_und', 'neartie_dir'):
+        for (a, b) in ss.ranges(len(named.family(tag)), 8):
+            units.append(('named', tag, a, b))
     for name, (n, la, da, tier) in NAV.items():
         if tier == 't' and not ctx.thorough:
             continue
@@ -189,6 +193,14 @@ def check_nav(t, L, Dm, mh, case):
 def work(unit):
     kind, name, a, b = unit
     t = Tally(PROPERTY)
+    if kind == 'named':
+        fam = named.family(name)
+        for idx in range(a, b):
+            label, X = fam[idx]
+            case = {'family': 'named:' + name, 'index': idx, 'graph': label, 'X': X, 'transform': None}
+            if check_floyd(t, X, None, case):
+                t.c['nontrivial'] += 1
+        return t
     if kind == 'floyd':
         directed, n, alpha, tr, _ = FLOYD[name]
         transforms = ('inv', 'log') if tr == 'both' else (None,)
